@@ -77,7 +77,9 @@ def execute(case):
     from tensorly.decomposition import tucker, tensor_train, tensor_train_matrix, tensor_ring
     c, t = case["cfg"], case["ten"]
     X = matching_tensor(t) if t["op"] == "matching" else measured_tensor(t)
-    ev = {"id": case["id"], "cfg": c, "svd": case["svd"], "iters": case["iters"],
+    dtype = case.get("dtype", "float64")
+    Xin = X.astype(dtype)          # integer dtypes only for integer-valued tensors (checked by the trace spec)
+    ev = {"id": case["id"], "cfg": c, "svd": case["svd"], "iters": case["iters"], "dtype": dtype,
           "ten": {k: v for k, v in t.items() if k in ("op", "shape", "idx", "vals", "fam")}}
     nrm2 = float(np.sum(X ** 2))
     if t["op"] == "matching":
@@ -96,21 +98,21 @@ def execute(case):
     try:
         rank = [int(r) for r in c["rank"]]
         if c["op"] == "tucker":
-            dec = tucker(tl.tensor(X), rank=rank, n_iter_max=case["iters"], init="svd", svd=case["svd"], random_state=case["seed"])
+            dec = tucker(tl.tensor(Xin), rank=rank, n_iter_max=case["iters"], init="svd", svd=case["svd"], random_state=case["seed"])
             ranks, rec = list(np.shape(dec[0])), tl.tucker_to_tensor(dec)
         elif c["op"] == "tt":
-            dec = tensor_train(tl.tensor(X), rank=rank, svd=case["svd"])
+            dec = tensor_train(tl.tensor(Xin), rank=rank, svd=case["svd"])
             ranks, rec = list(dec.rank), tl.tt_to_tensor(dec)
         elif c["op"] == "ttm":
-            dec = tensor_train_matrix(tl.tensor(X), rank=rank, svd=case["svd"])
+            dec = tensor_train_matrix(tl.tensor(Xin), rank=rank, svd=case["svd"])
             ranks, rec = list(dec.rank), dec.to_tensor()
         elif c["op"] == "tr":
-            dec = tensor_ring(tl.tensor(X), rank=rank, mode=c["mode"], svd=case["svd"])
+            dec = tensor_ring(tl.tensor(Xin), rank=rank, mode=c["mode"], svd=case["svd"])
             ranks, rec = list(dec.rank), tl.tr_to_tensor(dec)
         else:
             raise AssertionError(c["op"])
         out["ranks"] = [int(r) for r in ranks]
-        rec = np.asarray(rec)
+        rec = np.asarray(rec).astype(np.float64)      # err^2 is measured in float64 against the float64 tensor
         if rec.shape == X.shape:
             v = q(float(np.sum((X - rec) ** 2)) / den, scale)
             if isinstance(v, int):
@@ -137,11 +139,15 @@ MEASURED_SHAPES = [(3, 4), (5, 4), (6, 6), (3, 4, 5), (4, 4, 4), (2, 5, 3), (5, 
                    (2, 3, 2, 3, 2), (2, 2, 2, 3, 3), (3, 2, 2, 2, 2)]
 
 
-def measured_cases(rng, reps):
+QUICK_INTEGER_SHAPES = [(4, 5), (3, 4, 2), (3, 2, 2, 3), (2, 3, 2, 2, 2)]
+
+
+def measured_cases(rng, reps, dtypes, shapes=MEASURED_SHAPES, fams=("generic", "integer", "lowmultilinear", "lowtt", "rankdeficient"),
+                   all_dtypes=False):
     cases = []
-    for shape in MEASURED_SHAPES:
+    for shape in shapes:
         N = len(shape)
-        for fam in ("generic", "integer", "lowmultilinear", "lowtt", "rankdeficient"):
+        for fam in fams:
             for rep in range(reps):
                 ten = {"op": "measured", "shape": list(shape), "fam": fam, "tseed": rng.randrange(2**31), "lr": rng.choice([1, 2, 2, 3])}
                 cfgs = []
@@ -160,9 +166,12 @@ def measured_cases(rng, reps):
                 cfgs.append({"op": "tucker", "shape": list(shape), "rank": list(shape), "mode": 0})
                 cfgs.append({"op": "tt", "shape": list(shape), "rank": [1] + [30] * (N - 1) + [1], "mode": 0})
                 cfgs.append({"op": "tr", "shape": list(shape), "rank": [1] + [30] * (N - 1) + [1], "mode": rng.randrange(N)})
+                dts = [d for d in dtypes if fam == "integer" or not d.startswith("int")]
                 for c in cfgs:
                     for svd in ("truncated_svd", "symeig_svd"):
-                        cases.append({"cfg": c, "ten": ten, "svd": svd, "iters": rng.choice([0, 1, 50]) if c["op"] == "tucker" else 0})
+                        for dt in (dts if all_dtypes else [rng.choice(dts)]):
+                            cases.append({"cfg": c, "ten": ten, "svd": svd, "dtype": dt,
+                                          "iters": rng.choice([0, 1, 50]) if c["op"] == "tucker" else 0})
     return cases
 
 
@@ -184,6 +193,7 @@ def run(chk, opts):
         return
     svds = sorted(options[0]["svds"]["$set"])
     iters = sorted(options[0]["iters"]["$set"])
+    dtypes = sorted(options[0]["dtypes"]["$set"])
     for v in tens.values():
         v.sort(key=lambda t: (len(t["vals"]), t["idx"], t["vals"]))
     algs.sort(key=lambda c: (len(c["shape"]), c["shape"], c["op"], c["mode"], c["rank"]))
@@ -196,10 +206,14 @@ def run(chk, opts):
         methods = svds if (thorough or len(c["shape"]) <= 3) else [svds[k % len(svds)]]
         for m, svd in enumerate(methods):
             ten = rng.choice(full) if rng.random() < 0.7 else rng.choice(pool)
-            cases.append({"cfg": c, "ten": ten, "svd": svd, "iters": iters[(k + m) % len(iters)] if c["op"] == "tucker" else 0})
+            cases.append({"cfg": c, "ten": ten, "svd": svd, "iters": iters[(k + m) % len(iters)] if c["op"] == "tucker" else 0,
+                          "dtype": dtypes[(k // 2 + m) % len(dtypes)]})      # matching tensors are integer valued: every dtype applies
     n_exact = len(cases)
     if thorough or opts.get("measured"):
-        cases += measured_cases(rng, int(opts.get("reps", 3 if thorough else 1)))
+        cases += measured_cases(rng, int(opts.get("reps", 3 if thorough else 1)), dtypes)
+    else:
+        # quick: a small dense slice of the measured tier -- integer tensors in every dtype (integer arrays must decompose like floats)
+        cases += measured_cases(rng, 1, dtypes, shapes=QUICK_INTEGER_SHAPES, fams=("integer",), all_dtypes=True)
     for k, case in enumerate(cases):
         case["id"] = "C09/%s/%s/%06d" % ("x" if k < n_exact else "m", case["cfg"]["op"], k)
         case["seed"] = rng.randrange(2**31)
@@ -214,7 +228,7 @@ def run(chk, opts):
                 % (len(algs), sum(len(v) for v in tens.values()), ", all in thorough" if thorough else "", len(cases) - n_exact))
     for e in events:
         if "cfg" in e:
-            chk.distinct.add((str(e["cfg"]), e["svd"], e["iters"]))
+            chk.distinct.add((str(e["cfg"]), e["svd"], e["iters"], e["dtype"]))
     for e in events[:1] + events[n_exact - 1:n_exact] + events[-1:]:
         if "cfg" in e:
             chk.sample({k: v for k, v in e.items() if k != "data"})
